@@ -61,7 +61,16 @@ structure Feat where
   txtMar : Bool := false       -- encoding.TextMarshaler
   isErr : Bool := false        -- error
   stringer : Bool := false     -- fmt.Stringer
+  errPre : Bytes := []         -- what `Error()` puts before the content (kinds with several methods)
+  strPre : Bytes := []         -- what `String()` puts before the content (kinds with several methods)
 deriving DecidableEq, Repr
+
+/-- Kinds that implement several of `encoding.TextMarshaler` / `encoding.BinaryMarshaler` / `error` /
+`fmt.Stringer` at once answer each method with a different text, so that the method a codec chose
+shows in the bytes written: `Marshal…` return the content, `Error()` returns `"E:" ++ content`,
+`String()` returns `"S:" ++ content` (harness/props/c15.go, types c15TES, c15ES, c15TS, c15BES). -/
+def ePre : Bytes := [69, 58]
+def sPre : Bytes := [83, 58]
 
 /-- The kinds of data value (harness/props/c15.go `c15Make`). -/
 inductive K where
@@ -78,13 +87,18 @@ inductive K where
   | bin | binNil | txt | txtNil            -- Binary / Text (un)marshalers (pointer receivers)
   | err | errNil                           -- error (pointer receiver)
   | strg | pstrgNil                        -- fmt.Stringer (value receiver); nil pointer to it
+  | tes | tesNil                           -- TextMarshaler + error + Stringer at once (pointer receiver); nil
+  | es                                     -- error + Stringer
+  | ts                                     -- TextMarshaler + Stringer
+  | bes                                    -- BinaryMarshaler + error + Stringer
 deriving DecidableEq, Repr
 
 def K.all : List K :=
   [.nil, .str, .nstr, .pstr, .pnstr, .pstrNil, .byt, .nbyt, .pbyt, .pnbyt, .pbytNil,
    .pifNil, .pifStr, .pifByt, .pifInt, .pifNilPtr, .int, .pint, .pintNil,
    .strct, .pstrct, .pstrctNil, .slc, .pslc, .ppstr, .mp, .buf, .bufNil, .wr, .wrNil,
-   .rd, .rdc, .rdcNil, .wtc, .bin, .binNil, .txt, .txtNil, .err, .errNil, .strg, .pstrgNil]
+   .rd, .rdc, .rdcNil, .wtc, .bin, .binNil, .txt, .txtNil, .err, .errNil, .strg, .pstrgNil,
+   .tes, .tesNil, .es, .ts, .bes]
 
 def K.name : K → String
   | .nil => "nil" | .str => "str" | .nstr => "nstr" | .pstr => "pstr" | .pnstr => "pnstr"
@@ -97,6 +111,7 @@ def K.name : K → String
   | .rdcNil => "rdcNil" | .wtc => "wtc" | .bin => "bin" | .binNil => "binNil" | .txt => "txt"
   | .txtNil => "txtNil" | .err => "err" | .errNil => "errNil" | .strg => "strg"
   | .pstrgNil => "pstrgNil"
+  | .tes => "tes" | .tesNil => "tesNil" | .es => "es" | .ts => "ts" | .bes => "bes"
 
 /-- The kind dispatch table. -/
 def feat : K → Feat
@@ -139,6 +154,12 @@ def feat : K → Feat
   | .errNil => { ty := .ptr .struct_, nilPtr := true, isErr := true }
   | .strg => { ty := .val .struct_, stringer := true }
   | .pstrgNil => { ty := .ptr .struct_, nilPtr := true, stringer := true }
+  | .tes => { ty := .ptr .struct_, txtMar := true, isErr := true, stringer := true, errPre := ePre, strPre := sPre }
+  | .tesNil => { ty := .ptr .struct_, nilPtr := true, txtMar := true, isErr := true, stringer := true,
+                 errPre := ePre, strPre := sPre }
+  | .es => { ty := .ptr .struct_, isErr := true, stringer := true, errPre := ePre, strPre := sPre }
+  | .ts => { ty := .ptr .struct_, txtMar := true, stringer := true, strPre := sPre }
+  | .bes => { ty := .ptr .struct_, binMar := true, isErr := true, stringer := true, errPre := ePre, strPre := sPre }
 
 /-- `reflect.Indirect(reflect.ValueOf(data)).Type().Kind()`: `none` where Go panics (nil
 interface: `Type` of the zero Value). Typed-nil pointers are refused before this is asked. -/
@@ -347,7 +368,7 @@ def bpDispatch (f : Feat) (flag : Nat) (aux : Option Bytes) (st : St) : Res × S
     (resCopy (copyAll st.r st.w).1, { st with r := (copyAll st.r st.w).2.1, w := (copyAll st.r st.w).2.2 })
   else if f.binMar then
     (if flag = 0 then setW st (writeOnce st.w st.val) else (.mar flag false, st))
-  else if f.isErr then setW st (writeOnce st.w st.val)
+  else if f.isErr then setW st (writeOnce st.w (f.errPre ++ st.val))
   else match f.ty.base with
     | none => (.panic, st)
     | some .bytes => setW st (writeOnce st.w st.val)
@@ -374,8 +395,8 @@ def tpInner (f : Feat) (flag : Nat) (aux : Option Bytes) (st : St) : Res × St :
   else if f.nilPtr then (.nilPtr, st)
   else if f.txtMar then
     (if flag = 0 then setW st (writeOnce st.w st.val) else (.mar flag true, st))
-  else if f.isErr then setW st (writeOnce st.w st.val)
-  else if f.stringer then setW st (writeOnce st.w st.val)
+  else if f.isErr then setW st (writeOnce st.w (f.errPre ++ st.val))
+  else if f.stringer then setW st (writeOnce st.w (f.strPre ++ st.val))
   else match f.ty.base with
     | none => (.panic, st)
     | some .struct_ => jsonWrite aux st
@@ -477,6 +498,7 @@ def tcDst : K → DstClass
 
 inductive SrcClass where
   | unsupported | bytes | stream | marshal | json
+  | errText     -- an `error` whose other methods would say something else: its `Error()` text is written
 deriving DecidableEq, Repr
 
 /-- ByteStreamProducer: "io.WriterTo, io.Reader, encoding.BinaryMarshaler, error, []byte, string,
@@ -486,6 +508,11 @@ def bpSrc : K → SrcClass
   | .rd | .rdc => .stream
   | .bin => .marshal
   | .strct | .pstrct | .slc | .pslc | .wr | .txt | .strg => .json
+  -- several methods at once (doc comment order): BinaryMarshaler before error; error before the
+  -- reflection cases (a TextMarshaler / Stringer is nothing to this codec: a struct, "as JSON")
+  | .bes => .marshal
+  | .tes | .es => .errText
+  | .ts => .json
   | _ => .unsupported
 
 /-- TextProducer: `encoding.TextMarshaler`, error, `fmt.Stringer`, strings; structs and slices
@@ -494,6 +521,10 @@ def tpSrc : K → SrcClass
   | .str | .nstr | .pstr | .pnstr | .err | .strg | .buf => .bytes
   | .txt => .marshal
   | .strct | .pstrct | .slc | .pslc | .byt | .nbyt | .pbyt | .pnbyt | .wr | .rd | .rdc | .wtc | .bin => .json
+  -- several methods at once: the text form a type defines for itself (TextMarshaler) before its
+  -- error text, the error text before the Stringer's (text.go, text_test.go)
+  | .tes | .ts => .marshal
+  | .es | .bes => .errText
   | _ => .unsupported
 
 def Res.isError : Res → Bool
@@ -557,6 +588,7 @@ def specSrc (c : Case) (o : Obs) : SrcClass → Bool
   | .unsupported => o.res.isError
   | .bytes => specWritten c o c.content
   | .marshal => if c.flag == 0 then specWritten c o c.content else (o.res.isError && o.wgot.isEmpty)
+  | .errText => specWritten c o (ePre ++ c.content)
   | .json =>
     (match c.aux with
      | some j => specWritten c o j
@@ -611,7 +643,7 @@ def sigOf (f : Feat) : String :=
 /-- How the harness labels the content it reads back from a data value. -/
 def K.tag : K → String
   | .str | .nstr | .pstr | .pnstr | .err | .strg => "s"
-  | .byt | .nbyt | .pbyt | .pnbyt | .buf | .wtc | .bin | .txt => "b"
+  | .byt | .nbyt | .pbyt | .pnbyt | .buf | .wtc | .bin | .txt | .tes | .es | .ts | .bes => "b"
   | .pifNil => "in" | .pifStr => "is" | .pifByt => "ib" | .pifInt => "io"
   | _ => "n"
 
@@ -714,7 +746,7 @@ def dstClassName : DstClass → String
 
 def srcClassName : SrcClass → String
   | .unsupported => "unsupported" | .bytes => "bytes" | .stream => "stream" | .marshal => "marshal"
-  | .json => "json"
+  | .json => "json" | .errText => "errtext"
 
 def tagOf (c : Case) (m : Out) : String :=
   let d := match c.dir with | .consume => "c" | .produce => "p"
